@@ -97,7 +97,45 @@ def c20_no_process_wide_state_written_at_run_time(eng):
     return out
 
 
+WALKS = ('named_children', 'nodes_with_paths', 'nodes', 'nodes_paths')
+
+
+def consumers_see_every_position(eng):
+    """C10 / C11 / C14: a node object bound at several positions of a tree (a YAML alias on a tagged node, one Python object used twice)
+    is a node AT EACH of them: the evaluated mapping has every key (C11 'the structure mirrors the merged tree'), every consumer
+    receives the value (C10), every placeholder path is listed (C14).  The enumeration helpers can be asked to skip positions whose
+    node was seen before (allow_duplicates=False); no consumer in the package may ask for that - only the helpers themselves hand
+    the parameter on."""
+    out = []
+    helpers = tuple('awesomeyaml/nodes/composed.py::ComposedNode.ayns.' + w for w in WALKS)
+    seen = set()
+    for key, fi in sorted(eng.repo.funcs.items()):
+        if key.startswith(helpers) or '$' in key:
+            continue
+        if isinstance(fi.node, ast.FunctionDef) and any(a.arg == 'allow_duplicates' for a in fi.node.args.args + fi.node.args.kwonlyargs):
+            continue        # a helper that takes the switch itself and hands it on (children, nodes, ...)
+        for n in ast.walk(fi.node):
+            if isinstance(n, ast.Call) and isinstance(n.func, ast.Attribute) and n.func.attr in WALKS:
+                if (n.lineno, n.col_offset, fi.module.relpath) in seen:
+                    continue
+                seen.add((n.lineno, n.col_offset, fi.module.relpath))
+                kws = [k for k in n.keywords if k.arg == 'allow_duplicates']
+                ok = all(isinstance(k.value, ast.Constant) and k.value.value is True for k in kws)
+                # positional form: named_children(False) / nodes_with_paths(prefix, recursive, include_self, allow_duplicates)
+                pos = {'named_children': 0, 'nodes_with_paths': 3, 'nodes': 2, 'nodes_paths': 2}[n.func.attr]
+                if len(n.args) > pos:
+                    a = n.args[pos]
+                    ok = ok and isinstance(a, ast.Constant) and a.value is True
+                out.append((f'C10+C11+C14.consumer-of-the-tree-enumeration-sees-a-shared-node-at-every-position@{key.split("::")[1]}:{n.lineno}', ok,
+                            f'{fi.module.relpath}:{n.lineno} calls {n.func.attr}(...) ' + ('asking to skip positions of nodes seen before' if not ok else 'without skipping')))
+    if not out:
+        out.append(('C10+C11+C14.consumers-of-the-tree-enumeration-found', False, 'no call of the enumeration helpers found in the package'))
+    return out
+
+
 def register(R):
+    R.tasks.append(Structural('structural:C11-shared-nodes-count-at-every-position', ('C10', 'C11', 'C14'), consumers_see_every_position,
+                              note='call sites of named_children / nodes_with_paths / nodes / nodes_paths outside the helpers: none asks to skip shared nodes'))
     R.tasks.append(Structural('structural:C11-identity-memo-keys', ('C10', 'C11'), c11_memo_keys_keep_their_node_alive,
                               note='stores into identity-keyed memos use utils.persistent_id'))
     R.tasks.append(Structural('structural:C20-no-process-wide-state', ('C20',), c20_no_process_wide_state_written_at_run_time,
